@@ -30,6 +30,7 @@ RULE = (
 )
 ASSUMPTIONS = [
     "circuits have width >= 1 (the library cannot represent 0-qubit registers); batches hold >= 1 circuit",
+    "circuits handed to the tracking wrapper are gate circuits (the library has no serialised form for phase-only operations, so no record could match them)",
     "sample counts are Python ints (or lists/tuples of them)",
     "the tracking wrapper's own counters are asserted for single runs (+1/+1), batches (+len/+1) and rejected calls (unchanged); for distribution queries only monotonicity is asserted",
 ]
@@ -77,7 +78,10 @@ def _circuit(spec):
     for g, eq in extra:
         ops.append({"I": I, "Z": Z}[g](eq % len(spec["bits"])))
     width = len(spec["bits"])
-    if not ops or spec["explicit"] or not spec["bits"][-1]:
+    for pos, seedv in spec.get("mp", []):  # phase-only non-gate operations anywhere: the prepared basis state is unchanged
+        from orquestra.quantum.circuits import MultiPhaseOperation
+        ops.insert(min(pos, len(ops)), MultiPhaseOperation(tuple(0.1 * ((seedv + 3 * i) % 17) for i in range(2 ** width))))
+    if not ops or spec["explicit"] or not spec["bits"][-1] or spec.get("mp"):
         return Circuit(ops, width)
     return Circuit(ops)
 
@@ -87,6 +91,7 @@ circuit_specs = st.fixed_dictionaries({
     "extra": st.lists(st.tuples(st.sampled_from(["I", "Z"]), st.integers(0, 3)).map(list), max_size=3),
     "explicit": st.booleans(),
     "rot": st.one_of(st.just([]), st.lists(st.tuples(st.sampled_from(["RZ", "PHASE"]), st.integers(0, 3), st.sampled_from(ANGLES)).map(list), min_size=1, max_size=2)),
+    "mp": st.one_of(st.just([]), st.just([]), st.lists(st.tuples(st.sampled_from([0, 0, 1, 2, 5]), st.integers(0, 16)).map(list), min_size=1, max_size=2)),
 })
 
 
@@ -114,7 +119,7 @@ def machine(on_end, expired):
             self.executed += 1
             bits = [0] * circuit.n_qubits
             for op in circuit.operations:
-                if op.gate.name == "X":
+                if isinstance(op, GateOperation) and op.gate.name == "X":
                     bits[op.qubit_indices[0]] ^= 1
             m = Measurements([tuple(bits)] * (n_samples + self.surplus))
             self.returned.append(m)
@@ -139,6 +144,8 @@ def machine(on_end, expired):
             self.native_runs = 0
 
         def is_natively_supported(self, operation):
+            if self.native == {"*default*"}:  # the predicate the base class provides: gate operations are native, nothing else
+                return super().is_natively_supported(operation)
             return isinstance(operation, GateOperation) and operation.gate.name in self.native
 
         def _get_wavefunction_from_native_circuit(self, circuit, initial_state):
@@ -158,6 +165,15 @@ def machine(on_end, expired):
             self.seq = []
 
         # ---- helpers
+        def _fit(self, c):
+            """The tracking wrapper records the serialised circuit, and the library has no serialised form for non-gate
+            operations: circuits handed to a tracker are gate circuits."""
+            if self.inner is not None and c.get("mp"):
+                return dict(c, mp=[])
+            if c.get("mp"):
+                self.info["classes"].add("phase_operation_in_circuit")
+            return c
+
         def _note(self, kind):
             self.seq.append(kind)
             if "ok" in self.seq:
@@ -259,7 +275,7 @@ def machine(on_end, expired):
 
         # ---- rules
         @initialize(kind=st.sampled_from(KINDS), seed=st.integers(0, 2 ** 31 - 1), surplus=st.sampled_from([0, 0, 1, 3]),
-                    native=st.lists(st.sampled_from(["X", "I", "Z"]), unique=True), record_bits=st.booleans())
+                    native=st.one_of(st.lists(st.sampled_from(["X", "I", "Z"]), unique=True), st.just(["*default*"])), record_bits=st.booleans())
         def init(self, kind, seed, surplus, native, record_bits):
             def go():
                 self.kind = kind
@@ -281,10 +297,12 @@ def machine(on_end, expired):
                 require(self.runner.n_jobs_executed == 0 and self.runner.n_circuits_executed == 0, "fresh runner has non-zero counters")
             self.step("init", {"kind": kind, "seed": seed, "surplus": surplus, "native": native, "record_bits": record_bits}, go)
 
-        @rule(c=circuit_specs, n=st.integers(1, 40))
+        @rule(c=circuit_specs, n=st.one_of(st.integers(1, 40), st.integers(1, 40), st.integers(1, 40), st.sampled_from([1000, 65536, 65537, 100003, 150001])))
         def run_single(self, c, n):
             def go():
-                circ = _circuit(c)
+                if n > 1000 and (self.record_bits or self.kind in ("scripted", "tracker_scripted")):
+                    return  # very many shots only where producing and recording them is cheap
+                circ = _circuit(self._fit(c))
                 before = self._snapshot()
                 n_ret = len(self.inner.returned) if self.inner is not None else 0
                 m = must(lambda: self.runner.run_and_measure(circ, n), "run_and_measure")
@@ -301,7 +319,7 @@ def machine(on_end, expired):
             """Two circuits that compare equal but are written differently, one after the other."""
             def go():
                 specs = [c, twin_spec(c)]
-                circs = [_circuit(x) for x in specs]
+                circs = [_circuit(self._fit(x)) for x in specs]
                 before = self._snapshot()
                 n_ret = len(self.inner.returned) if self.inner is not None else 0
                 if batch:
@@ -330,7 +348,7 @@ def machine(on_end, expired):
         @rule(c=circuit_specs, n=st.sampled_from([0, -1, -7]))
         def run_single_invalid(self, c, n):
             def go():
-                circ = _circuit(c)
+                circ = _circuit(self._fit(c))
                 before = self._snapshot()
                 must_raise(ValueError, lambda: self.runner.run_and_measure(circ, n), f"run_and_measure with n_samples={n}")
                 self._expect_unchanged(before, "run_and_measure")
@@ -341,7 +359,7 @@ def machine(on_end, expired):
               mode=st.sampled_from(["int", "list", "tuple"]))
         def run_batch(self, cs, ns, mode):
             def go():
-                circs = [_circuit(c) for c in cs]
+                circs = [_circuit(self._fit(c)) for c in cs]
                 counts = ns[: len(cs)]
                 arg = counts[0] if mode == "int" else (list(counts) if mode == "list" else tuple(counts))
                 want_n = [counts[0]] * len(cs) if mode == "int" else counts
@@ -364,7 +382,7 @@ def machine(on_end, expired):
               pos=st.integers(0, 2))
         def run_batch_invalid(self, cs, bad, pos):
             def go():
-                circs = [_circuit(c) for c in cs]
+                circs = [_circuit(self._fit(c)) for c in cs]
                 L = len(circs)
                 arg = {"int0": 0, "int_neg": -3, "short": [5] * (L - 1), "long": [5] * (L + 1),
                        "zero_entry": [5] * L, "neg_entry": [5] * L}[bad]
@@ -382,7 +400,7 @@ def machine(on_end, expired):
         @rule(c=circuit_specs, n=st.sampled_from([None, 1, 5, 33, 0, -2]))
         def distribution(self, c, n):
             def go():
-                circ = _circuit(c)
+                circ = _circuit(self._fit(c))
                 before = self._snapshot()
                 sim = self.kind in ("symbolic", "split", "tracker_symbolic")
                 invalid = (n is not None and n <= 0) or (n is None and not sim)
@@ -404,7 +422,7 @@ def machine(on_end, expired):
             def go():
                 if self.kind not in ("symbolic", "split"):
                     return
-                circ = _circuit(c)
+                circ = _circuit(self._fit(c))
                 before = self._snapshot()
                 wf = must(lambda: self.runner.get_wavefunction(circ), "get_wavefunction")
                 amps = np.asarray(wf.amplitudes, dtype=complex).reshape(-1)
@@ -442,4 +460,4 @@ SUBCHECKS = [
              rule="state machine over runner calls; non-trivial = a rejected call between two successful ones"),
 ]
 SUBCHECKS[0].expected_classes = ["kind:" + k for k in KINDS] + ["ok_rejected_ok", "batch:int", "batch:list", "batch:tuple",
-                                                                 "bad:short", "bad:long", "bad:zero_entry", "bad:neg_entry", "bad:int0", "twins"]
+                                                                 "bad:short", "bad:long", "bad:zero_entry", "bad:neg_entry", "bad:int0", "twins", "phase_operation_in_circuit"]
